@@ -90,4 +90,20 @@ PROPS["C14"] = dict(
     assumptions=["keccak256 injective (hypothesis hH of C14_hash_binds_fields)", "varints below 2^64 (protobuf-go rejects longer ones; the model has no bound)"],
 )
 
+PROPS["C03"] = dict(
+    lean_modules=["QuaiVerif.Props.C03"],
+    areas=[dict(name="sign", n_quick=400, n_thorough=6000, seeds_thorough=3, n_search=1500)],
+    facts=["tx_fields"],
+    rule="a case is one really signed Quai transaction (random key, optional to/data/access list, chain id incl. 0) and: 4 boundary (v,r,s) triples through "
+         "ValidateSignatureValues; Sender through 6 signers of equal/different/zero chain id on the same object (cache); 7 single-field mutations carrying the "
+         "original signature; 7 signature mutations (high-S twin, zero, N, out-of-range v). Every case non-trivial; distinct by sub-seed",
+    level_text="Chain-id rejection, signature-range rejection, cache transparency for every sequence of signers, and 'same sender + same signature => same signed "
+               "payload' (under explicit injectivity/unforgeability hypotheses) are Lean theorems over the Sender model; that the signed payload covers every "
+               "non-signature field is decided over field sets regenerated from ProtoEncode / ProtoEncodeTxSigningData; the model's verdict classes are compared "
+               "with the real Sender on signed transactions and all their mutations.",
+    level_note="Trusted: Lean kernel; extractor's field-set reading; ECDSA recovery and keccak are opaque parameters (recovered address supplied by the harness); "
+               "cryptographic unforgeability is a theorem hypothesis. Qi (Schnorr / MuSig2) authorisation is checked through ProcessQiTx in the C01 area.",
+    assumptions=["hSig: a signature recovers a given signer for at most one digest", "hH: keccak256 injective on signing payloads"],
+)
+
 NOT_APPLICABLE = {}
